@@ -85,19 +85,21 @@ func (e *Env) Environ() []string {
 
 // RunIn runs a command in dir with extra environment entries and optional stdin.
 func (e *Env) RunIn(dir string, extraEnv []string, stdin []byte, timeout time.Duration, name string, args ...string) Result {
-	cmd := exec.Command(name, args...)
-	cmd.Dir = dir
-	cmd.Env = append(e.Environ(), extraEnv...)
-	// resolve the binary through our PATH, not the orchestrator's
+	// resolve the binary through the scenario's PATH, not the orchestrator's
+	bin := name
 	if !strings.Contains(name, "/") {
 		for _, d := range []string{e.BinDir, "/usr/local/bin", "/usr/bin", "/bin"} {
 			p := filepath.Join(d, name)
 			if st, err := os.Stat(p); err == nil && !st.IsDir() {
-				cmd.Path = p
+				bin = p
 				break
 			}
 		}
 	}
+	cmd := exec.Command(bin, args...)
+	cmd.Args[0] = name
+	cmd.Dir = dir
+	cmd.Env = append(e.Environ(), extraEnv...)
 	var so, se bytes.Buffer
 	cmd.Stdout, cmd.Stderr = &so, &se
 	if stdin != nil {
